@@ -316,7 +316,7 @@ def run(ctx):
     for chunk in date_cells(ctx.tier):
         jobs.append(("dates", chunk))
     step = 61 if quick else 1
-    times = [("t", (datetime.datetime(2000, 1, 1) + datetime.timedelta(seconds=s)).time()) for s in range(1, 86400, step)]
+    times = [("t", (datetime.datetime(2000, 1, 1) + datetime.timedelta(seconds=s)).time()) for s in [0, 86399] + list(range(1, 86400, step))]
     jobs.append(("times", times))
     boundary = []
     for day in (datetime.date(1900, 3, 1), datetime.date(1999, 12, 31), datetime.date(2000, 2, 29), datetime.date(2024, 2, 29), datetime.date(9999, 12, 31)):
